@@ -62,7 +62,7 @@ for pid in props:
             "engine": "dst",
             "level_claimed": {"category": "exploration", "text": text, "design_ref": f"DESIGN.md §{ref}"},
             "level_note": note,
-            "technique": "deterministic simulation with fault injection: seeded scheduler over real OS threads (one runs at a time), simulated clock, ring-capacity/thread-exit/stall faults, reference-model oracle over the recorded history, minimised replay files",
+            "technique": "deterministic simulation with fault injection: seeded scheduler over real OS threads (one runs at a time), simulated clock, injected faults (ring capacity, thread exit, collector stall, slow/late/replaced reporter, wall-clock steps, caught panics in user code and through scopes, limit overflows; 15 % swarm runs mix the fault kinds of all profiles), reference-model oracle over the recorded history, every fourth worker process runs the library with its own debug assertions compiled in, minimised replay files",
         })
 na = []
 for pid in props:
@@ -82,7 +82,7 @@ m = {
  "engines": [{"name": "dst", "path": "/verif/dst", "serves_properties": sorted(CLAIMED), "kind_free_text": "deterministic simulator (own scheduler on real OS threads, simulated time, fault injection), program generator, reference model, oracles, minimiser, multi-process driver"}],
  "checks": checks,
  "not_applicable": na,
- "notes": "run.sh <ID> quick|thorough rebuilds the harness from /repo's working tree, runs 16 pinned worker processes over a fixed seed range derived from VERIF_SEED, writes evidence/<ID>.json; exit 0 held, 1 VIOLATION (replay file under /verif/replays), 2 harness error. Known findings: /verif/known-findings.json.",
+ "notes": "run.sh <ID> quick|thorough rebuilds the harness from /repo's working tree, runs 16 pinned worker processes over a fixed seed range derived from VERIF_SEED, writes evidence/<ID>.json (builds two variants of the harness: target/ and target-checked/ = fastrace's debug assertions on; replay files record which one found them); exit 0 held, 1 VIOLATION (replay file under /verif/replays), 2 harness error. Known findings: /verif/known-findings.json.",
 }
 json.dump(m, open("/verif/MANIFEST.json","w"), indent=1)
 print("claimed", sorted(CLAIMED), "na", [x["property_id"] for x in na])
